@@ -218,6 +218,14 @@ def run_session(d):
         out = ["ok"]
         for name, script in d["ops"]:
             out.append(r.op(name, script))
+        if d.get("second_client"):
+            # a second client created while the first one is still alive starts unassociated and has its own association:
+            # clients do not share protocol state
+            from dlms_cosem.clients.dlms_client import DlmsClient
+            other = DlmsClient(client_logical_address=16, server_logical_address=1, io_interface=ScriptedIO(r))
+            st2 = str(other.dlms_connection.state.current_state)
+            if other.dlms_connection.state is r.conn.state or st2 != "NO_ASSOCIATION":
+                out[-1] += f" !PROP C19 a second client starts in {st2} / shares the first one's state machine"
         return out
     return [l.strip() for l in lines], impl
 
@@ -362,6 +370,10 @@ class C19(fw.Prop):
                 yield case([("assoc", a), ("get", [f"gn:{INV0}:0901ff"]), ("release", ["rlre"]), ("get", [f"gn:{INV0}:0901ff"])], "associate",
                            "NO_ASSOCIATION")
             yield case([("release", ["rlre"]), ("assoc", ["aare:0:0"]), ("release", ["ex:1:2"]), ("release", [])], "release")
+            # two clients in one process
+            for ops in ([("get", [f"gn:{INV0}:0901ff"])], [("assoc", ["aare:0:0"]), ("get", [f"gb:{INV0}:1:01", f"gl:{INV0}:2:02"])]):
+                yield self.make_case({"ciphered": ciphered, "state": "NO_ASSOCIATION" if ops[0][0] == "assoc" else "READY", "ops": ops,
+                                      "tag": "second-client", "second_client": True})
             # --- sessions
             for _ in range(40 if deep else 6):
                 ops = [self.good_exchange(rng) for _ in range(rng.randint(3, 60 if deep else 20))]
